@@ -84,6 +84,69 @@ async def one_case(ctx, n, nested):
     return None
 
 
+async def pipeline_case(ctx, n):
+    """scatter -> element-wise step with SEVERAL inputs -> gather, run by the real executor: (a) a two-port Transformer whose ports
+    receive the elements in different orders, (b) a dot-product CombinatorStep joining the scattered elements with a non-scattered
+    token that arrives last.  The gathered list is the original list."""
+    from streamflow.workflow.combinator import DotProductCombinator
+    from streamflow.workflow.executor import StreamFlowExecutor
+    from streamflow.workflow.step import CombinatorStep, Transformer
+
+    class Pair(Transformer):
+        async def transform(self, inputs):
+            return {"out": Token(value=f"{inputs['a'].value}", tag=inputs["a"].tag)}
+
+    vals = [f"v{i}" for i in range(n)]
+    elems, sizes = await run_scatter(ctx, [ListToken([Token(v) for v in vals], tag="0")])
+    kind = rng.choice(["transformer", "combinator"])
+    wf = Workflow(context=ctx, name=f"wfp{next(_c)}", config={})
+    a, b, mid, size, out = (wf.create_port() for _ in range(5))
+    if kind == "transformer":
+        st = wf.create_step(cls=Pair, name=f"/t{next(_c)}")
+        st.add_input_port("a", a)
+        st.add_input_port("b", b)
+        st.add_output_port("out", mid)
+    else:
+        comb = DotProductCombinator(name=f"c{next(_c)}", workflow=wf)
+        comb.add_item("a")
+        comb.add_item("b")
+        st = wf.create_step(cls=CombinatorStep, name=f"/c{next(_c)}-combinator", combinator=comb)
+        st.add_input_port("a", a)
+        st.add_input_port("b", b)
+        st.add_output_port("a", mid)
+        st.add_output_port("b", wf.create_port())
+    ga = wf.create_step(cls=GatherStep, name=f"/g{next(_c)}", size_port=size, depth=1)
+    ga.add_input_port("in", mid)
+    ga.add_output_port("out", out)
+    await wf.save(ctx.database)
+
+    async def feed(port, tok):
+        await tok.save(ctx.database, port.persistent_id)
+        port.put(tok)
+
+    if kind == "transformer":
+        order_a, order_b = rng.sample(elems, len(elems)), rng.sample(elems, len(elems))
+        for t in order_a:
+            await feed(a, Token(value=t.value, tag=t.tag))
+        for t in order_b:
+            await feed(b, Token(value="other", tag=t.tag))
+    else:
+        order_a = list(reversed(elems)) if rng.random() < 0.5 else rng.sample(elems, len(elems))
+        for t in order_a:
+            await feed(a, Token(value=t.value, tag=t.tag))
+        await feed(b, Token(value="plain", tag="0"))  # the non-scattered input, after the scattered ones
+    a.put(TerminationToken())
+    b.put(TerminationToken())
+    await feed(size, Token(value=n, tag="0"))
+    size.put(TerminationToken())
+    await asyncio.wait_for(StreamFlowExecutor(wf).run(), 120)
+    res = [t for t in out.token_list if not isinstance(t, TerminationToken)]
+    got = [t.value for t in res[0].value] if len(res) == 1 and isinstance(res[0], ListToken) else None
+    if got != vals:
+        return {"stage": f"scatter -> {kind} with two inputs -> gather", "n": n, "arrival_a": [t.tag for t in order_a], "got": got}
+    return None
+
+
 async def search(n):
     ctx = build_context({"database": {"type": "default", "config": {"connection": ":memory:"}}, "path": tempfile.mkdtemp()})
     try:
@@ -92,6 +155,10 @@ async def search(n):
             bad = await one_case(ctx, size, nested=(k % 4 == 0))
             if bad:
                 return bad
+            if k % 3 == 0:
+                bad = await pipeline_case(ctx, rng.choice([1, 2, 3, 11, 12, 23]))
+                if bad:
+                    return bad
     finally:
         await ctx.close()
     return None
